@@ -632,9 +632,20 @@ def v3_unsubscribe(lens=(1,)):
     return Shape("v3", "Unsubscribe", "unsubscribe_" + "_".join(map(str, lens)) if lens else "unsubscribe_none", 0xA2, b, "mp::v3::Packet::Unsubscribe(p)", ctor if lens else None)
 
 
-def v3_empty(typ):
-    b = B("v3")
-    return Shape("v3", typ, typ.lower(), TYPE_NIBBLE[typ] << 4, b, "mp::v3::Packet::%s" % typ, "mp::v3::Packet::%s" % typ)
+def _empty(fam, typ, extra):
+    """PINGREQ / PINGRESP / v3 DISCONNECT: no variable header, no payload (remaining length 0).
+    extra > 0: a frame of that type that declares (and carries) `extra` body bytes -- malformed."""
+    b = B(fam)
+    if extra:
+        junk = b.arr(extra, "junk")
+        b.put_arr(junk, extra)
+        b.con("false", "%s.body_not_empty" % typ.lower(), ("InvalidRemainingLength",))
+    name = typ.lower() + ("_extra%d" % extra if extra else "")
+    return Shape(fam, typ, name, TYPE_NIBBLE[typ] << 4, b, "mp::%s::Packet::%s" % (fam, typ), "mp::%s::Packet::%s" % (fam, typ))
+
+
+def v3_empty(typ, extra=0):
+    return _empty("v3", typ, extra)
 
 
 # ---- v5 ------------------------------------------------------------------------------------
@@ -895,9 +906,8 @@ def v5_auth(form="empty", plist=(), zero=None):
     return Shape("v5", "Auth", name, 0xF0, b, "mp::v5::Packet::Auth(p)", ctor, canonical)
 
 
-def v5_empty(typ):
-    b = B("v5")
-    return Shape("v5", typ, typ.lower(), TYPE_NIBBLE[typ] << 4, b, "mp::v5::Packet::%s" % typ, "mp::v5::Packet::%s" % typ)
+def v5_empty(typ, extra=0):
+    return _empty("v5", typ, extra)
 
 
 # ---------------------------------------------------------------------------------------
@@ -1049,6 +1059,20 @@ def emit_dec(sh, prop="C04", bad=None, frontend="poll", extra_checks=True):
     ok = " && ".join("c%d" % i for i in range(len(b.cons))) or "true"
     lines.append("    let ok: bool = %s;" % ok)
     lines.append("    let (r, used) = fe::%s::strict(0x%02x, %d, %d, &body);" % (fam, sh.ctrl, BL, H))
+    # native replay only: the real poll decoder (common/poll.rs, real tokio) must agree with the composition
+    lines.append("    #[cfg(not(kani))]")
+    lines.append("    {")
+    lines.append("        " + frame_decl(sh))
+    lines.append("        let (pr, pused, preq) = fe::%s::poll_all(&frame);" % fam)
+    lines.append('        vassert!(pr.is_ok() == r.is_ok(), "%s|native.poll_vs_composition.accept|the real poll decoder and the composed strict decoder disagree on acceptance");' % prop)
+    lines.append("        if let (Ok((pt, _, pp)), Ok((t, p))) = (&pr, &r) {")
+    lines.append('            vassert!(pp == p && *pt == *t && pused == *t, "%s|native.poll_vs_composition.value|the real poll decoder and the composed strict decoder return different packets/sizes");' % prop)
+    lines.append("        }")
+    lines.append("        if let (Err(pe), Err(e)) = (&pr, &r) {")
+    lines.append('            vassert!(format!("{:?}", pe) == format!("{:?}", e), "%s|native.poll_vs_composition.error|the real poll decoder and the composed strict decoder return different errors");' % prop)
+    lines.append("        }")
+    lines.append("        std::mem::forget(pr);")
+    lines.append("    }")
     lines.append("    match r {")
     lines.append("        Ok((total, pkt)) => {")
     for i, (expr, key, err, kind, region) in enumerate(b.cons):
